@@ -73,19 +73,30 @@ theorem C04_size_in_smaller_unit (p : Period) (h : p.WF) :
 theorem C04_contains_iff_subset (p q : Period) (hp : p.WF) (hq : q.WF) (b : Bool)
     (h : p.contains q = .ok b) : (b = true ↔ p.lo ≤ q.lo ∧ q.hi ≤ p.hi) := by
   unfold Period.contains at h
-  cases hps : p.stop with
-  | error e => rw [hps] at h; cases h
-  | ok ps =>
-    cases hqs : q.stop with
-    | error e => rw [hps, hqs] at h; cases h
-    | ok qs =>
-      rw [hps, hqs] at h
-      simp only [bind, Except.bind] at h
-      injection h with h
-      obtain ⟨hpv, hpo⟩ := stop_spec p hp ps hps
-      obtain ⟨hqv, hqo⟩ := stop_spec q hq qs hqs
-      rw [← h, decide_eq_true_iff, le_iff_ord_le _ _ hp.2.1 hq.2.1, le_iff_ord_le _ _ hqv hpv]
-      unfold Period.lo; omega
+  have hle := le_iff_ord_le _ _ hp.2.1 hq.2.1
+  split at h
+  · rename_i hst
+    cases hps : p.stop with
+    | error e => rw [hps] at h; cases h
+    | ok ps =>
+      cases hqs : q.stop with
+      | error e => rw [hps, hqs] at h; cases h
+      | ok qs =>
+        rw [hps, hqs] at h
+        simp only [bind, Except.bind] at h
+        injection h with h
+        obtain ⟨hpv, hpo⟩ := stop_spec p hp ps hps
+        obtain ⟨hqv, hqo⟩ := stop_spec q hq qs hqs
+        have := hle.1 hst
+        rw [← h, decide_eq_true_iff, le_iff_ord_le _ _ hqv hpv]
+        unfold Period.lo; omega
+  · rename_i hst
+    injection h with h
+    have : ¬ ord p.start ≤ ord q.start := fun hh => hst (hle.2 hh)
+    rw [← h]; unfold Period.lo
+    constructor
+    · intro hf; cases hf
+    · intro hc; exact absurd hc.1 this
 
 example : (Period.mk .year ⟨2015, 1, 1⟩ 1).contains (Period.mk .month ⟨2015, 12, 1⟩ 1) = .ok true ∧
     (Period.mk .year ⟨2015, 1, 1⟩ 1).contains (Period.mk .week ⟨2015, 12, 28⟩ 1) = .ok false := by
